@@ -8,7 +8,8 @@ import (
 
 func init() {
 	rule := "forced schedules on one real client.Client (harness-owned conn, gated codec, client.send.enter hook): 1..4 calls of kinds {Go, blocking Call (cancellable or with a deadline), one-way Go, Go with a raw-bytes reply}, " +
-		"events {register, encode failure, write failure/success, cancel, response frames (normal / error / undecodable / heartbeat-flagged / duplicate / unknown seq), " +
+		"calls issued with Go, Call (also with a deadline) and SendRaw; events {register, encode failure, write failure/success, cancel, response frames (normal / error / undecodable / heartbeat-flagged / duplicate / unknown seq), " +
+		"a response held INSIDE its dispatch (reader parked at its trace line between taking the call out of the table and completing it) while the caller gives up, " +
 		"server pushes with colliding seq, peer-close (reader termination) between frames and in the middle of a response frame (five byte-offset classes), Close, and a fresh call entering send() while a teardown (peer-close or Close) is parked inside the ClientConnectionClose plugin} in random enabled orders; each schedule is executed step by step on the implementation " +
 		"and replayed on the Lean multiplexer model; observables: per call number of Done signals and final outcome (or the blocking caller's return), " +
 		"push channel contents in order, IsShutdown; every case a specification case; non-trivial = schedule with at least one frame or fault; distinct = distinct schedule"
